@@ -412,6 +412,12 @@ class World:
             if obj is None:
                 raise LookupError("no such entity")
             args, kwargs = _api_args(step["call"], step.get("args", {}))
+            if step["call"] == "set_target_temperature" and step["target"][0] == "ac":
+                # what the object itself advertises as "the current [min, max]" at the moment of the call
+                try:
+                    self.trace.add("user.advertised_limits", lo=float(obj.min_target_temperature), hi=float(obj.max_target_temperature))
+                except Exception:  # noqa: BLE001 - a getter that raises is C10's business
+                    pass
             return await getattr(obj, step["call"])(*args, **kwargs)
 
         self._spawn_user(step, go)
